@@ -231,14 +231,16 @@ func specsFor(thorough bool) []scenSpec {
 				scenSpec{side: side, l2: true, a: "proxy", b: "block", depth: d},
 				scenSpec{side: side, l2: true, a: "dmark", b: "pmust", depth: d},
 				scenSpec{side: side, l2: true, a: "mustrules", b: "pmark", depth: d},
+				scenSpec{side: side, l2: true, a: "block", b: "direct", depth: d},
+				scenSpec{side: side, l2: true, a: "pmust", b: "dmark", depth: d},
 			)
 		}
-		// IPv6 with extension headers, L3 link type, payload-less frames, bpf_redirect_peer: shallower
+		// IPv6 with extension headers, L3 link type, payload-less frames, bpf_redirect_peer
 		for _, side := range []int{sideLAN, sideWAN} {
 			specs = append(specs,
-				scenSpec{side: side, v6: true, ext: true, l2: true, a: "proxy", b: "direct", depth: 3},
-				scenSpec{side: side, l2: false, peer: true, a: "pmark", b: "direct", depth: 3},
-				scenSpec{side: side, v6: true, l2: true, short: true, a: "proxy", b: "dmark", depth: 3},
+				scenSpec{side: side, v6: true, ext: true, l2: true, a: "proxy", b: "direct", depth: d},
+				scenSpec{side: side, l2: false, peer: true, a: "pmark", b: "direct", depth: d},
+				scenSpec{side: side, v6: true, l2: true, short: true, a: "proxy", b: "dmark", depth: d},
 			)
 		}
 	} else {
@@ -269,6 +271,13 @@ func specsFor(thorough bool) []scenSpec {
 					specs = append(specs, v)
 				}
 			}
+		}
+		// deeper still, last: cut first when the machine is slow
+		for _, side := range []int{sideLAN, sideWAN} {
+			specs = append(specs, scenSpec{side: side, l2: true, a: "direct", b: "proxy", depth: 6})
+		}
+		for _, side := range []int{sideLAN, sideWAN} {
+			specs = append(specs, scenSpec{side: side, l2: true, a: "dmark", b: "pmust", depth: 5, rich: true})
 		}
 	}
 	return specs
